@@ -144,20 +144,64 @@ theorem loadLen_enc (m len : Nat) (rest : Bits) (h : len ≤ m) :
   · have hlt : len < 2 ^ bitLength m := Nat.lt_of_le_of_lt h (lt_two_pow_bitLength m)
     simp [h0, Hashmap.loadUint, natToBits_length, natOfBits_natToBits _ _ hlt]
 
-/-- the label reader inverts every hashmap.tlb label encoding -/
-theorem deserializeHml_enc {m : Nat} {s : Bits} {k : LabelKind} {lb : Bits} (h : LabelEnc m s k lb) (rest : Bits) :
-    deserializeHml (lb ++ rest) (m : Int) = some (s.length, s, rest) := by
+/-- the constructor branches of the label reader invert every hashmap.tlb label encoding -/
+theorem readHml_enc {m : Nat} {s : Bits} {k : LabelKind} {lb : Bits} (h : LabelEnc m s k lb) (rest : Bits) :
+    readHml (lb ++ rest) (m : Int) = some (s.length, s, rest) := by
   cases h with
   | short hl =>
-    simp [deserializeHml, readUnary_replicate, loadBits_append]
+    simp [readHml, readUnary_replicate, loadBits_append]
   | long hl =>
-    simp only [deserializeHml, List.cons_append, List.append_assoc]
+    simp only [readHml, List.cons_append, List.append_assoc]
     rw [loadLen_enc m s.length _ hl]
     simp [loadBits_append]
   | same v hs hl =>
-    simp only [deserializeHml, List.cons_append]
+    simp only [readHml, List.cons_append]
     rw [loadLen_enc m s.length _ hl]
     simp [← hs]
+
+theorem labelEnc_len_le {m : Nat} {s : Bits} {k : LabelKind} {lb : Bits} (h : LabelEnc m s k lb) : s.length ≤ m := by
+  cases h <;> assumption
+
+/-- the label reader inverts every hashmap.tlb label encoding (`{n <= m}` is part of `LabelEnc`, so the length test of
+`deserialize_hml` passes) -/
+theorem deserializeHml_enc {m : Nat} {s : Bits} {k : LabelKind} {lb : Bits} (h : LabelEnc m s k lb) (rest : Bits) :
+    deserializeHml (lb ++ rest) (m : Int) = some (s.length, s, rest) := by
+  have hl := labelEnc_len_le h
+  simp only [deserializeHml, readHml_enc h]
+  have : ¬ ((s.length : Int) > (m : Int)) := by omega
+  simp [this]
+
+/-- what `deserialize_hml` returns is what its constructor branches read, and the label is not longer than the remaining key -/
+theorem deserializeHml_some {bits : Bits} {m : Int} {n : Nat} {s rest : Bits} :
+    deserializeHml bits m = some (n, s, rest) ↔ readHml bits m = some (n, s, rest) ∧ (n : Int) ≤ m := by
+  unfold deserializeHml
+  cases hr : readHml bits m with
+  | none => simp
+  | some t =>
+    obtain ⟨n', s', rest'⟩ := t
+    by_cases hgt : (n' : Int) > m
+    · simp only [hgt, if_true, Option.some.injEq, Prod.mk.injEq]
+      constructor
+      · intro h; cases h
+      · rintro ⟨⟨rfl, _, _⟩, hle⟩; omega
+    · simp only [hgt, if_false, Option.some.injEq, Prod.mk.injEq]
+      constructor
+      · rintro ⟨rfl, rfl, rfl⟩; exact ⟨⟨rfl, rfl, rfl⟩, by omega⟩
+      · rintro ⟨h, _⟩; exact h
+
+/-- a label the reader accepts fits the remaining key; in particular the remaining key was not negative -/
+theorem deserializeHml_le {bits : Bits} {m : Int} {n : Nat} {s rest : Bits}
+    (h : deserializeHml bits m = some (n, s, rest)) : (n : Int) ≤ m := (deserializeHml_some.1 h).2
+
+/-- a label longer than the remaining key is refused -/
+theorem deserializeHml_too_long {bits : Bits} {m : Int} {n : Nat} {s rest : Bits}
+    (h : readHml bits m = some (n, s, rest)) (hgt : m < (n : Int)) : deserializeHml bits m = none := by
+  simp [deserializeHml, h, hgt]
+
+/-- the first data byte of every exotic cell is its type (1..4): the label reader sees `00…` = an empty `hml_short` label -/
+theorem deserializeHml_zero_zero (r : Bits) {m : Int} (hm : 0 ≤ m) :
+    deserializeHml (false :: false :: r) m = some (0, [], r) := by
+  simp [deserializeHml, readHml, readUnary, loadBits, hm]
 
 /-! ### the parser on spec-valid trees -/
 
@@ -200,7 +244,7 @@ theorem parseEdge_valid {ok p n c kv} (h : ValidHMK ok p n c kv) :
   | @pruned n bits hb =>
     intro pfx _
     obtain ⟨r, rfl⟩ := pruned_bits hb
-    simp [parseEdge, deserializeHml, readUnary, loadBits]
+    simp [parseEdge, deserializeHml_zero_zero r (Int.natCast_nonneg n)]
 
 theorem parseAugEdge_valid {X Y : Type} {D : AugDec X Y} {p n c kv ex} (h : ValidAug D p n c kv ex) :
     ∀ (pfx : Bits), parseAugEdge D c (n : Int) pfx = some (kv.map (pre pfx), ex) := by
